@@ -687,7 +687,7 @@ pub fn family(name: &str, tier: Tier) -> Vec<Scenario> {
         "F9b" => {
             let base = FileSpec::new(&[0, 1, 2, 3, 4, 5, 6], 0, Feed::Whole);
             let blocks: [&[u8]; 7] = [&[0, 1], &[2, 3, 4], &[5, 6], &[0], &[3], &[7], &[0, 1, 2, 3, 4]];
-            let l = tier.pick(5, 6);
+            let l = 5;
             for w in words(7, l) {
                 if w.len() < 3 || !w.iter().any(|b| *b == 5) {
                     continue;
